@@ -3904,9 +3904,14 @@ class BoutMesh(Mesh):
             # Create poloidal coordinate which goes from 0 to 2pi in the core region
             theta = deepcopy(y)
             myg = self.user_options.y_boundary_guards
+            # boundary guard cells only exist where there are targets: a core-only grid
+            # has none, whatever y_boundary_guards is
+            myg_lower = myg if self.ny > self.ny_noguards else 0
             for t in [theta.centre, theta.xlow, theta.ylow]:
                 # Make zero of theta half a point before the start of the core region
-                t -= theta.ylow[0, numpy.newaxis, jyseps1_1 + myg + 1, numpy.newaxis]
+                t -= theta.ylow[
+                    0, numpy.newaxis, jyseps1_1 + myg_lower + 1, numpy.newaxis
+                ]
                 if jyseps2_1 != jyseps1_2:
                     # Has second divertor, subtract y-increment in upper divertor legs
                     # from outer regions to make theta continuous in the core
@@ -3932,7 +3937,6 @@ class BoutMesh(Mesh):
             chi.ylow = 2.0 * numpy.pi * self.zShift.ylow / self.ShiftAngle.centre
             # set to NaN in divertor leg regions where chi is not valid
             # (the arrays include y-boundary guard cells, the jyseps* indices do not)
-            myg_lower = myg if jyseps1_1 >= 0 else 0
             myg_upper = 2 * myg if jyseps2_1 != jyseps1_2 else 0
             for c in [chi.centre, chi.xlow, chi.ylow]:
                 c[:, : jyseps1_1 + 1 + myg_lower] = float("nan")
